@@ -332,4 +332,31 @@ example : (QMat.inverse (QMat.ofRows [[2, 1], [1, 1]])).isSome = true := by deci
 
 end Inverse
 
+/-! ## 5. Spellings of one option are one request -/
+
+section Spellings
+
+/-- the documented aliases resolve to the module of the full name, and leaving the keyword out is `first_order` -/
+theorem resolveMethod_aliases :
+    resolveMethod (some "stacked") = resolveMethod (some "stacked_time") ∧
+    resolveMethod (some "period") = resolveMethod (some "period_by_period") ∧
+    resolveMethod none = resolveMethod (some "first_order") := by decide
+
+/-- **API equivalence**: a simulation reads the spelling only through its resolution, so two spellings of one method give the same
+result, whatever the simulators do -/
+theorem simulateSpelled_equiv {α : Type} (run : SimMethod → α) (s s' : Option String)
+    (h : resolveMethod s = resolveMethod s') : simulateSpelled run s = simulateSpelled run s' := by
+  unfold simulateSpelled; rw [h]
+
+theorem simulateSpelled_stacked {α : Type} (run : SimMethod → α) :
+    simulateSpelled run (some "stacked") = simulateSpelled run (some "stacked_time") :=
+  simulateSpelled_equiv run _ _ resolveMethod_aliases.1
+
+/-- the resolution is onto the three modules and each resolved name is itself a spelling of its module -/
+theorem resolveMethod_name (m : SimMethod) : resolveMethod (some m.name) = some m := by cases m <;> rfl
+
+example : resolveMethod (some "Stacked") = none ∧ (resolveMethod (some "stacked")).map SimMethod.name = some "stacked_time" := by decide
+
+end Spellings
+
 end IrisVerif.C07Frames
